@@ -554,7 +554,7 @@ int EGLPNUM_TYPENAME_ILLlib_chgbnd (
 		ILL_CLEANUP;
 	}
 
-	if (indx < 0 || indx > lp->O->nstruct)
+	if (indx < 0 || indx >= lp->O->nstruct)
 	{
 		QSlog("EGLPNUM_TYPENAME_ILLlib_chgbnd called with bad indx: %d", indx);
 		rval = 1;
@@ -630,7 +630,7 @@ int EGLPNUM_TYPENAME_ILLlib_getbnd (
 		ILL_CLEANUP;
 	}
 
-	if (indx < 0 || indx > lp->O->nstruct)
+	if (indx < 0 || indx >= lp->O->nstruct)
 	{
 		QSlog("EGLPNUM_TYPENAME_ILLlib_getbnd called with bad indx: %d", indx);
 		rval = 1;
